@@ -29,6 +29,7 @@ mod c19_events;
 mod c08_init;
 mod c08_mmio;
 mod c09_drop;
+mod c20_cmd;
 
 use proto::RunResult;
 use runner::{Ctx, Tier};
@@ -117,6 +118,7 @@ fn main() {
                 "C19" => c19_events::run(&ctx),
                 "C08" => c08_init::run(&ctx),
                 "C09" => c09_drop::run(&ctx),
+                "C20" => c20_cmd::run(&ctx),
                 _ => {
                     eprintln!("unknown property {}", prop);
                     std::process::exit(2)
